@@ -168,7 +168,7 @@ def gen_cli(rng, n, tier):
         if rng.random() < 0.4:
             # the same tag a second time in the template, with its own arguments (each occurrence is its own invocation)
             args2 = [a for a in (gen_arg(rng) for _ in range(rng.choice([0, 1, 2]))) if not a.endswith("\\")]
-        yield {"args": args, "args2": args2, "files": sorted(set(names)), "roots": roots, "with_ctx": args2 is None and rng.random() < 0.4,
+        yield {"args": args, "args2": args2, "files": sorted(set(names)), "roots": roots, "with_ctx": args2 is None and rng.random() < 0.4, "verbose": rng.random() < 0.25,
                "stdout": rng.choice([" out \n", "name\n", "x", "a\rb", "\ra\rb\r\n"]), "stderr": rng.choice(["", "E!"])}
 
 
@@ -185,6 +185,8 @@ def impl_cli(case):
         if case.get("args2") is not None:
             call += "_%probe(" + ", ".join(esc_string(a) for a in case["args2"]) + ")"
         args = ["-ah", "probe=" + PROBE, "--dry-run", "-r", "-ih", "-p", "%Dir()/pre" + call + "post-%Name()"] + [str(root / r) for r in case["roots"]]
+        if case.get("verbose"):
+            args.insert(0, "-v")     # what is logged must not change how often or how the program is run
         env = {"PROBE_STDOUT": case["stdout"], "PROBE_STDERR": case["stderr"], "PROBE_EXIT": "0"}
         (out, err, rc), records = _with_probe(env, lambda: common.run_cli(args))
         recs = []
